@@ -224,6 +224,26 @@ Definition wf_slave (s : slave) : Prop :=
   map fst (s_conn s) = conn_fields /\ NoDup (s_prov_attrs s)
   /\ s_attrs s <> JNull /\ s_webhooks s <> JNull /\ s_reverse s <> JNull.
 
+(* ---------------------------------------------------------------- which slave a persisted slave port belongs to
+   slaves/devices.py:_load_ports (ports of a permanently offline slave exist on the master from persisted data only):
+   the owner of a record of collection slave_ports is the slave whose name followed by "." is a prefix of the record's id; the
+   rest of the id is the port's id on the device and may itself contain dots (ports of a device that is a master).  Device
+   names cannot contain dots (the `name` pattern of /device), so at most one slave matches. *)
+Fixpoint starts_with (p s : string) : bool :=
+  match p, s with
+  | EmptyString, _ => true
+  | String a p', String b s' => Ascii.eqb a b && starts_with p' s'
+  | String _ _, EmptyString => false
+  end.
+Fixpoint drop (n : nat) (s : string) : string :=
+  match n, s with O, _ => s | S n', String _ s' => drop n' s' | S _, EmptyString => EmptyString end.
+Fixpoint dot_free (s : string) : bool :=
+  match s with EmptyString => true | String a s' => negb (Ascii.eqb a ".") && dot_free s' end.
+Definition slave_port_id (name remote : string) : string := name ++ "." ++ remote.
+Definition owns (name pid : string) : bool := starts_with (name ++ ".") pid.
+Definition remote_id (name pid : string) : string := drop (S (String.length name)) pid.
+Definition load_ports (name : string) (stored : list string) : list string := map (remote_id name) (filter (owns name) stored).
+
 (* ---------------------------------------------------------------- the hub: live objects + store, operations *)
 Record hub := {
   h_static : list string;                       (* ports configured in settings.ports: created at every start *)
